@@ -16,6 +16,10 @@ from vlib import common
 LEVEL = "exploration"
 EPS = 2.0 ** -53
 ALPHA = [0.0, 5e-324, EPS, 0.25, 0.5, 0.75, 1 - EPS]
+# thorough: also the smallest normal double, a small and an ordinary value on
+# either side of the constants the samplers branch on (1/e, 1/2)
+ALPHA_T = ALPHA + [2.2250738585072014e-308, 2.0 ** -30, 0.1,
+                   0.36787944117144233, 0.6, 0.9, 1 - 2.0 ** -30]
 
 
 def make_scripted():
@@ -197,7 +201,7 @@ def raising_site(ex):
 
 
 def script_worker(task):
-    lo, hi = task
+    lo, hi, alpha, maxlen = task
     Scripted0 = make_scripted()
     Real = make_real_scripted()
     n = 0
@@ -210,8 +214,8 @@ def script_worker(task):
                 continue
             Scripted = Real
         seen_sig = set()
-        for L in (1, 2, 3):
-            for script in itertools.product(ALPHA, repeat=L):
+        for L in range(1, maxlen + 1):
+            for script in itertools.product(alpha, repeat=L):
                 n += 1
                 st = Scripted(script)
                 try:
@@ -252,6 +256,31 @@ def script_worker(task):
                 used = st.i
                 if used >= 2:
                     nontriv += 1
+                # the next draw of the same instance (left-over script, then
+                # the tail): samplers with a spare value or helper objects
+                x_next = None
+                if used < len(script):
+                    try:
+                        x_next = d.draw()
+                        if not support(x_next):
+                            viols.append((
+                                "C14:outside-support:%s" % name,
+                                "%s: second draw %r outside the support for "
+                                "stream output %s" % (name, x_next,
+                                                      list(script[:st.i])),
+                                {"case": name, "script": list(script[:st.i]),
+                                 "draws": 2}, st.i))
+                    except Exception as ex:  # noqa
+                        sig = "C14:draw-raises:%s:%s:%s:%s" % (
+                            name.split("(")[0], type(ex).__name__,
+                            raising_site(ex), "second-draw")
+                        viols.append((sig, "%s: second draw() raises %s (%s) "
+                                      "for stream output %s" % (
+                                          name, type(ex).__name__, ex,
+                                          list(script[:st.i])),
+                                      {"case": name,
+                                       "script": list(script[:st.i]),
+                                       "draws": 2}, st.i))
                 if not support(x):
                     viols.append(("C14:outside-support:%s" % name,
                                   "%s: draw %r outside the support for stream "
@@ -262,9 +291,16 @@ def script_worker(task):
                 # twin on an identically scripted stream
                 st2 = Scripted(script)
                 try:
-                    x2 = mk(st2).draw()
+                    d2 = mk(st2)
+                    x2 = d2.draw()
+                    if x_next is not None and st2.i == used:
+                        y2 = d2.draw()
+                        if not (y2 == x_next or (y2 != y2
+                                                 and x_next != x_next)) \
+                                or st2.i != st.i:
+                            x2 = ("second draw", y2)
                     if not (x2 == x or (x != x and x2 != x2)) or \
-                            st2.i != used:
+                            (x_next is None and st2.i != used):
                         viols.append(("C14:twin-differs:%s" % name,
                                       "%s: twin instance gives %r/%d uniforms "
                                       "instead of %r/%d" % (name, x2, st2.i,
@@ -600,14 +636,18 @@ def run(ctx):
     nc = len(cases())
     step = 2
     tasks = [(i, min(nc, i + step)) for i in range(0, nc, step)]
+    quick = ctx.tier == "quick"
+    alpha, maxlen = (ALPHA, 5) if quick else (ALPHA_T, 5)
     total = nontriv = 0
-    for n, nt, viols in common.pimap(script_worker, tasks):
+    for n, nt, viols in common.pimap(
+            script_worker, [(i, min(nc, i + 1), alpha, maxlen)
+                            for i in range(nc)]):
         total += n
         nontriv += nt
         for sig, what, rep, rank, count in viols:
             ctx.violation(sig, what, rep, rank, count)
     ctx.part("scripted uniforms", cases=nc, scripts=total,
-             alphabet=[repr(a) for a in ALPHA])
+             max_script_length=maxlen, alphabet=[repr(a) for a in alpha])
     ni = 0
     for n, viols in common.pimap(interplay_worker, tasks):
         ni += n
@@ -631,16 +671,17 @@ def run(ctx):
     ctx.coverage.update(
         evaluations=total + ni + nk + ne, distinct_nontrivial=nontriv,
         rule="%d (class, parameter) cases reaching every sampler branch x all "
-        "scripts of length <= 3 over the uniform alphabet %s followed by a "
-        "benign tail: no exception, value in the support, twin instance on an "
-        "identically scripted stream returns the same value and consumes the "
-        "same count. Every case interleaved with 6 partner instances (both "
+        "scripts of length <= 5 over the uniform alphabet %s followed by a "
+        "benign tail, one draw and (when script is left over) a second draw "
+        "of the same instance: no exception, value in the support, twin "
+        "instance on an identically scripted stream returns the same values "
+        "and consumes the same count. Every case interleaved with 6 partner instances (both "
         "orders) must draw what it draws alone; re-pointing after 0..3 draws "
         "(once, twice): old stream never consumed again, draws equal those of "
         "a fresh instance on an equal stream. Constructor table: every tuple "
         "over {-1,0,0.5,1,2,10,-1.0,0.0,1.0,2.0,'x',None} vs the documented "
         "domain. distinct_nontrivial = scripts whose draw consumed >= 2 "
-        "uniforms." % (nc, [repr(a) for a in ALPHA]))
+        "uniforms." % (nc, [repr(a) for a in alpha]))
     ctx.assumptions += [
         "NaN / inf parameters are unspecified (docstrings say '<= 0 raises')",
         "signatures of raising draws name the class, the exception and the "
